@@ -35,7 +35,7 @@ OpenQ == {OA("r", "-", 0, 1, "c"), OA("r", "-", 0, 0, "cxx"), OA("w", "u", 1, 1,
 OpenT == OpenQ \cup {OA("w", "n", 0, 0, "c"), OA("a", "n", 1, 1, "cxx"), OA("r", "-", 0, 1, "cxx")}
 SK(o, w) == [off |-> o, wh |-> w]
 SeekQ == {SK(1, "set"), SK(-1, "cur"), SK(-1, "end")}
-SeekT == SeekQ \cup {SK(0, "cur")}
+SeekT == SeekQ
 Skel == <<shape, uvars, fvars, touched>>
 Emit == PrintT(<<"BEHAV", ToJson(hist')>>)
 =============================================================================
